@@ -24,7 +24,8 @@ from vlib import nn
 RULE = ("cells = (configuration, null population or null law); every distinct ordering / every sequence of the cell is "
         "executed; a cell is non-trivial if the population is non-constant and some ordering gives q < 1; distinct = "
         "hash of (configuration, sorted population | law, n)")
-REQUIRED = ["cells:perm", "cells:perm_largeN_few_minority", "cells:iid", "cells:audit", "audit_orderings_run", "orderings_run", "sequences_run", "cells_where_test_can_reject", "cells_with_a_look_after_every_draw_on_one_buffer",
+REQUIRED = ["cells:perm", "cells:perm_largeN_few_minority", "cells:iid", "cells:audit", "audit_orderings_run", "orderings_run", "sequences_run", "cells_where_test_can_reject", "cells_with_a_look_after_every_draw_on_one_buffer", "cells_relying_on_the_default_alternative",
+            "cells_relying_on_the_default_alternative:null_mean_well_above_one_half",
             "cells_boundary_mean"] + \
            [f"perm:{nn.label({'test': a, 'estim': b, 'bet': c})}" for a, b, c in nn.COMBOS
             if a not in ("kaplan_markov", "kaplan_wald")] + \
@@ -162,7 +163,7 @@ def run_shard(spec, rec):
     rng = random.Random(f"c01-{spec['seed']}-{spec['shard']}")
     for i in range(spec["perm_cells"]):
         combo = PERM_COMBOS[i % len(PERM_COMBOS)]
-        cfg = nn.gen_cfg(rng, combo=combo, finite=True, allow_not_random=False)
+        cfg = nn.gen_cfg(rng, combo=combo, finite=True, allow_not_random=False, allow_default_eta=True)
         st = POP_STRATA[(i // len(PERM_COMBOS)) % len(POP_STRATA)]
         u, t = cfg["u"], cfg["t"]
         # size: up to nmax, but keep the number of distinct orderings bounded
@@ -208,7 +209,7 @@ def run_shard(spec, rec):
         run_case({"kind": "perm", "cfg": cfg, "pop": sorted(pop), "stratum": "largeN_few_minority"}, rec)
     for i in range(spec["iid_cells"]):
         combo = IID_COMBOS[i % len(IID_COMBOS)]
-        cfg = nn.gen_cfg(rng, combo=combo, finite=False, allow_not_random=False)
+        cfg = nn.gen_cfg(rng, combo=combo, finite=False, allow_not_random=False, allow_default_eta=True)
         atoms, ws = gen_law(rng, cfg["u"], cfg["t"])
         n = rng.randint(1, spec["iid_n"][1] if len(atoms) == 2 else spec["iid_n"][0])
         run_case({"kind": "iid", "cfg": cfg, "atoms": atoms, "weights": [[w.numerator, w.denominator] for w in ws],
@@ -302,6 +303,10 @@ def run_case(case, rec):
             rec.count("cells_with_a_look_after_every_draw_on_one_buffer")
         rec.count("cells:perm")
         rec.count(f"perm:{lab}")
+        if cfg.get("default_eta"):
+            rec.count("cells_relying_on_the_default_alternative")
+            if t > (0.5 + u) / 2:
+                rec.count("cells_relying_on_the_default_alternative:null_mean_well_above_one_half")
         can_reject = any(q < 1 for q, _, _ in qw)
         if can_reject:
             rec.count("cells_where_test_can_reject")
@@ -336,6 +341,8 @@ def run_case(case, rec):
             rec.count("cells_with_a_look_after_every_draw_on_one_buffer")
         rec.count("cells:iid")
         rec.count(f"iid:{lab}")
+        if cfg.get("default_eta"):
+            rec.count("cells_relying_on_the_default_alternative")
         can_reject = any(q < 1 for q, _, _ in qw)
         if can_reject:
             rec.count("cells_where_test_can_reject")
